@@ -154,6 +154,43 @@ pub fn run(ctx: &Ctx) -> Outcome {
         );
     }
 
+    // ---------------- part 1b: derived Rust types (structs mapped to UDTs / rows) ----------------
+    // A struct deriving DeserializeValue / DeserializeRow is a Rust type like any other: a database-side
+    // type it does not fit must be refused by type_check, one the attribute docs accept must pass, and
+    // type_check saying yes must not be followed by a deserializer that gives up. The struct family,
+    // the enumeration of database-side field lists and the docs-derived interpreter are C16's; only its
+    // verdicts about the READ-side type check are taken over here.
+    if want_part(ctx, "derived") && !ctx.miri() {
+        let mut sub = ctx.clone();
+        sub.replay = None;
+        sub.part = None;
+        sub.extra.insert("max_db".into(), if ctx.quick() { "5".into() } else { "6".into() });
+        let d = super::c16::run(&sub);
+        let typecheck_verdict = |sig: &str| {
+            sig.starts_with("de_")
+                && (sig.contains("accepted-but-documented-reject") || sig.contains("rejected-but-documented-accept") || sig.contains("type_check-rejects-documented-metadata") || sig.ends_with(":panic"))
+        };
+        let mut n = 0u64;
+        for (k, v) in &d.classes {
+            if k.starts_with("de_") {
+                out.class_n(&format!("derived:{k}"), *v);
+                n += *v;
+            }
+        }
+        out.evals(n);
+        for v in d.violations {
+            if typecheck_verdict(&v.signature) {
+                out.violation(format!("derived:{}", v.signature), v.message, json!({"kind": "derived", "c16_replay": v.replay}));
+            }
+        }
+        for i in d.inconclusive {
+            out.inconclusive(format!("derived part: {i}"));
+        }
+        for c in ["derived:de_udt:by_name:accept", "derived:de_udt:ordered:accept", "derived:de_udt:by_name:reject", "derived:de_udt:ordered:reject"] {
+            out.require_class(c);
+        }
+    }
+
     // ---------------- part 2: rollback ----------------
     if do_rollback {
         // one list = (len+1) prefixes x 15 failure kinds + row paths  ~ 90 evaluated cases
